@@ -338,6 +338,13 @@ func classifyRequest(req *http.Request) (clientProtocolHandler, url.Values) {
 		// also use *any* content-type.
 		fallthrough
 	default:
+		if values == nil {
+			// (content types outside application/*: the query string holds the
+			// fields that neither the path nor the body provides, as for any
+			// other REST request, and must be parsed before the request line
+			// is rewritten for the target)
+			values = req.URL.Query()
+		}
 		return restClientProtocol{}, values
 	}
 }
